@@ -1050,8 +1050,9 @@ func (c *Client) resend(conn net.Conn, seqNoOffset uint, seq *seq, space uint) e
 			return fmt.Errorf("mqtt: persistence key %#04x gone missing 👻", key)
 		}
 
-		if seqNo < seq.submitN && packet[0]>>4 == typePUBLISH {
-			packet[0] |= dupeFlag
+		if seqNo < seq.submitN && packet[0]>>4 == typePUBLISH && packet[0]&dupeFlag == 0 {
+			// The value may share memory with the Persistence.
+			packet = append([]byte{packet[0] | dupeFlag}, packet[1:]...)
 		}
 
 		err = writeTo(conn, packet, c.PauseTimeout)
